@@ -50,6 +50,10 @@ def cases(tier, seed):
     for nm in WIDE_NAMES:
         for n in (0, 5, 300):
             yield {"k": "wname", "files": [C.spec(nm, n=n), C.spec("NEXT", n=3)]}
+    # tapes written by file_util --to_cas from a DISK image (written by the independent disk writer): every order of text, data,
+    # BASIC and machine-language files on the disk - what reaches the tape writer has gone through the disk reader first
+    for fset in ([3, 0], [0, 3], [3, 2, 0], [8, 9, 0], [9, 8], [16, 1], [3, 16, 10], [10, 3], [18, 3, 19], [19, 18], [2, 3, 4], [3], [3, 8, 16, 0]):
+        yield {"k": "fromdsk", "fset": fset}
     # images produced by appending (the tool re-reads the existing image and writes everything again)
     import itertools
     for tup in itertools.product(range(len(APPEND_FILES)), repeat=2):
@@ -110,6 +114,19 @@ def build_by_append(case):
         return open(real, "rb").read()
 
 
+def build_from_disk(case):
+    import os
+    from .. import cli
+    from . import c16
+    with common.scratch_dir(chdir=False) as d:
+        src, tgt = os.path.join(d, "src.dsk"), os.path.join(d, "out.cas")
+        specs = c16.write_source(src, "dsk", case["fset"])
+        status, out = cli.file_util(src, to_cas=tgt)
+        if status != 0 or not os.path.exists(tgt):
+            raise RuntimeError("file_util --to_cas from a disk image: status {} {}".format(status, out[-80:]))
+        return open(tgt, "rb").read(), specs
+
+
 def check_case(case):
     cell = c06.cell_of(case) if case["k"] == "write" else ""
     res = {"nontrivial": True, "outcome": "ok"}
@@ -124,8 +141,14 @@ def check_case(case):
         cell = "append.foreign|{}|{}".format(case["base"], case["files"][0]["name"]) + ("|via-link" if case.get("link") else "")
     if case["k"] == "wname":
         cell = "wname|{}|{}".format(case["files"][0]["name"].encode("unicode_escape").decode(), case["files"][0]["n"])
+    if case["k"] == "fromdsk":
+        cell = "fromdsk|{}".format(",".join(map(str, case["fset"])))
     try:
-        img = build_by_append(case) if case["k"] in ("append", "foreign") else c06.build_image(case)
+        if case["k"] == "fromdsk":
+            img, specs = build_from_disk(case)
+            case = dict(case, files=[dict(sp, load=sp["load"] or 0, exec=sp["exec"] or 0) for sp in specs])
+        else:
+            img = build_by_append(case) if case["k"] in ("append", "foreign") else c06.build_image(case)
     except Exception as e:
         if case["k"] == "wname":        # refusing such a name writes no image: nothing to judge
             res["state"] = "wname-refused"
@@ -152,6 +175,12 @@ def check_case(case):
             for i, (s, f) in enumerate(zip(want, files)):
                 data = C.pattern(s["n"], s["pat"])
                 nm = s["name"].encode("latin1", "replace")[:8].ljust(8, b" ") if case["k"] != "wname" or i else f["name"]
+                if case["k"] == "fromdsk":       # names and addresses of a transfer are C16's subject; here: the stream and its payloads
+                    if f["data"] != data:
+                        bad("payloads do not concatenate to the data", "{} bytes".format(len(data)), "{} bytes".format(len(f["data"])))
+                    elif f["type"] != s["type"] or f["dtype"] != s["dtype"]:
+                        bad("name-file block fields differ", "t{} d{}".format(s["type"], s["dtype"]), "t{} d{}".format(f["type"], f["dtype"]))
+                    continue
                 if f["data"] != data:
                     bad("payloads do not concatenate to the data", "{} bytes".format(len(data)), "{} bytes".format(len(f["data"])))
                 elif f["name"] != nm or f["type"] != s["type"] or f["dtype"] != s["dtype"]:
